@@ -274,11 +274,11 @@ theorem iteAux_obl {c1 c2 : LinComb} (hc : lcEq c1 c2) : ∀ (n1 n2 : Nat) {t1 t
           cases hf with
           | list hfs =>
             dsimp only
-            refine Obl.bind (zipWithM'_obl (fun _ _ _ _ h1 h2 => ih n2 h1 h2) hts hfs) (fun r1 r2 hr => ?_)
+            refine Obl.iteElseRaise (Obl.bind (zipWithM'_obl (fun _ _ _ _ h1 h2 => ih n2 h1 h2) hts hfs) (fun r1 r2 hr => ?_))
             exact Obl.pure (.list hr)
           | tuple hfs =>
             dsimp only
-            refine Obl.bind (zipWithM'_obl (fun _ _ _ _ h1 h2 => ih n2 h1 h2) hts hfs) (fun r1 r2 hr => ?_)
+            refine Obl.iteElseRaise (Obl.bind (zipWithM'_obl (fun _ _ _ _ h1 h2 => ih n2 h1 h2) hts hfs) (fun r1 r2 hr => ?_))
             exact Obl.pure (.list hr)
           | _ => exact Obl.tyErrL
         | _ => refine Obl.bind (ra := ValRel) ?_ ?_ <;> obl
